@@ -74,7 +74,7 @@ def build(u):
     mh = u.src("proxy_agent_shared/src/misc_helpers.rs")
     el = u.src("proxy_agent_shared/src/telemetry/event_logger.rs")
     u.features += ["allocator_api", "sized_hierarchy", "pattern", "const_destruct", "const_trait_impl"]
-    for f in ("str_axioms.rs", "ext_types.rs", "std_string.rs", "http.rs", "utf8.rs"):
+    for f in ("str_axioms.rs", "ext_types.rs", "std_string.rs", "http.rs", "http_consts.rs", "utf8.rs"):
         u.raw(open(os.path.join(COMMON, f)).read())
     u.raw(open(os.path.join(CON, "authorizer", "spec.rs")).read())
     u.raw_file("spec.rs")
@@ -272,8 +272,13 @@ def build(u):
 
                 fr = ps.item("ProxyServer::forward_response", "fn")
                 st = fr["blocks"][0]["stmts"]
-                if len(st) != 8 or len(fr["matches"]) < 2:
-                    raise Undecided("forward_response: statement structure changed (%d statements)" % len(st))
+                # the hyper body plumbing = the statements from `let mut logger = ...logger.clone()` to `let mut response = Response::from_parts(..)`
+                # (found by content, so that statements added before or after them do not disturb the extraction)
+                i_lo = [i for i, x in enumerate(st) if ".logger.clone()" in ps.s(x[0], x[1])]
+                i_hi = [i for i, x in enumerate(st) if "Response::from_parts(" in ps.s(x[0], x[1]) and re.match(r"\s*let\s+mut\s+response\b", ps.s(x[0], x[1]))]
+                if len(i_lo) != 1 or len(i_hi) != 1 or i_hi[0] <= i_lo[0] or len(fr["matches"]) < 2:
+                    raise Undecided("forward_response: the body-plumbing statements (logger clone .. Response::from_parts) were not found")
+                plumb = (st[i_lo[0]][0], st[i_hi[0]][1])
                 inner_match = [m for m in fr["matches"] if ps.s(m["scrutinee"][0], m["scrutinee"][1]).strip() == "e"]
                 if len(inner_match) != 1:
                     raise Undecided("forward_response: `match e` not found")
@@ -288,7 +293,7 @@ def build(u):
                                 body_prefix="let e = e; ", body=None)),
                               # E9 (statement range): hyper body plumbing (map_frame closure, boxed()) -- the response is rebuilt from the
                               # upstream parts; the per-byte map of the closure is checked by the Kani companion (panic_bytes unit)
-                              ((st[1][0], st[4][1]), None, "http_connection_context: &HttpConnectionContext, proxy_response: Response<Incoming>",
+                              (plumb, None, "http_connection_context: &HttpConnectionContext, proxy_response: Response<Incoming>",
                                "&http_connection_context, proxy_response", "Response<BoxBody<Bytes, hyper::Error>>", """
     ensures resp_status(r) == resp_status(proxy_response), resp_headers(r) == resp_headers(proxy_response),
             relayed_body(resp_body(proxy_response), resp_body(r)),""",
